@@ -253,6 +253,8 @@ def run_check(prop_id, tier):
         "input_distribution": out.dist,
         "explanation": getattr(mod, "EXPLANATION", ""),
         "coq_gate_s": gate["wall_s"],
+        "model_binary": gate.get("model_binary", "not checked (the Coq build failed)"),
+        "print_assumptions_outputs": gate.get("print_assumptions", 0),
         "coqchk": gate.get("coqchk", "not run in this tier (thorough only)"),
     }
     try:
@@ -288,6 +290,10 @@ def run_replay(path):
     if out.corr_breaks:
         print(f"VIOLATION property={prop_id} replay={os.path.relpath(path, C.VERIF)} no-failing-input-found")
         return 1
+    if out.known:
+        for fid, (n, ex) in sorted(out.known.items()):
+            print(f"KNOWN-FINDING: property={prop_id} {fid}: this input still fails and is attributed to the listed finding")
+        return 0
     print("replay: property holds on this input now")
     return 0
 
